@@ -2,6 +2,8 @@ CONSTANTS
   MaxItems = 0
   MaxTags = 0
   ItemKinds = {}
+  CommentKinds = {"a"}
+  SplitKinds = FALSE
 INIT TraceInit
 NEXT TraceNext
 INVARIANTS TypeOK StackIsOpenStarts
